@@ -450,6 +450,11 @@ const FILTERS: &[(&str, &[&str])] = &[
     ("limit(2; ., ., .)", &[]),
     ("{a, n: input_filename}", &[]),
     ("tojson", &["-r"]),
+    // halting ends the whole run; whether the file being processed is replaced is not specified
+    // (ambiguity table), but nothing may be left behind and other files stay as they are
+    ("if .a == 1 then halt else . end", &[]),
+    ("if .a == 0 then (\"bye\\n\" | halt_error) else . end", &[]),
+    (".a, (if .a == 2 then halt(3) else empty end)", &[]),
 ];
 
 const OUT_OPTS: &[&[&str]] = &[
@@ -574,7 +579,7 @@ pub fn gen_case(rng: &mut Rng) -> Case {
         filter: filter.to_string(),
         args: a2,
         paths: p2,
-        halting: false,
+        halting: filter.contains("halt"),
         faults: vec![],
         stratum: "none".into(),
     }
@@ -865,7 +870,7 @@ pub fn minimise(case: &Case, class: &str, wk: &mut Worker) -> Result<(Case, u32)
 
 pub fn check(cfg: &Cfg) -> Result<i32, Harness> {
     let started = std::time::Instant::now();
-    let n_worlds = cfg.n(40, 400);
+    let n_worlds = cfg.n(40, 160);
     let per_world_quick = 25usize;
     // phase A: worlds, references, fault-free traces
     let idx: Vec<u64> = (0..n_worlds as u64).collect();
